@@ -10,7 +10,17 @@ levels of ancestors*) before and after.
 loop) — refused -> retry, success -> another name, file -> directory — each receive judged exactly like a single one
 against the options the USER gave and the file system as it is when it starts, plus: a receive leaves the user's options
 (cwd, output_file, accept_file) as the user gave them.  The model threads the args record through the same `recv_*` lines.
+
+Every world calls an entry point (or, in the step-by-step world, a helper) and then WAITS for whatever it returned: the code
+under test gets a reactor stand-in (`StepReactor`: `task.Clock` time, "threads" that run at the next turn, FIFO
+`callFromThread`, fire-and-forget exceptions dropped as the real reactor drops them) and a user at the terminal (`Prompt`:
+`input()` / `sys.stdin`), and the harness turns the reactor until the returned value / Deferred has settled.  So the oracle
+observes the implementation whether the prompt is asked synchronously, from a thread, or a turn later; when the step-by-step
+helpers are gone or reshaped, the same case goes through `Receiver.go()` instead.  `prompt_corpus`: the interactive receiver
+(prompt answered y / Y / Enter / n) x what is at the destination x the output option x names that resolve to a directory the
+user already has, end to end through `receive()` / the click Config / `go()`.
 """
+import builtins
 import contextlib
 import errno
 import hashlib
@@ -20,12 +30,14 @@ import os
 import shutil
 import socket
 import stat
+import sys
 import tempfile
 import warnings
 import zipfile
 from unittest import mock
 
 from twisted.internet import defer, task
+from twisted.python.failure import Failure
 
 from wormhole.cli import cmd_receive
 from wormhole.timing import DebugTiming
@@ -46,6 +58,9 @@ TRUSTED = [
     "WV.Gen.Recv.outlives_receive (state of the receive path that survives one receive(): writes into args, globals, class "
     "attributes, mutable defaults, module-level containers) is a syntactic scan of cli/cmd_receive.py, not an escape analysis; "
     "what it cannot see is covered by observation only (the multi-receive cases)",
+    "the reactor the code under test sees is a stand-in (StepReactor): work given to a thread runs, in the harness thread, at the "
+    "next turn; callFromThread calls run FIFO in that turn; an exception of a fire-and-forget call (callFromThread, callInThread, "
+    "callLater) is dropped as the real reactor only logs it; real thread interleavings and a real terminal are not explored",
 ]
 RULE = ("configuration matrix {output-file unset / new / existing file / existing dir / fifo / missing parent} x "
         "{accept-file on/off, answers y/Y/''/n} x {pre-existing destination none/file/dir, pre-existing <dest>.tmp} x "
@@ -53,7 +68,10 @@ RULE = ("configuration matrix {output-file unset / new / existing file / existin
         "'.hidden', NUL, 300 chars; joined by '/', '//', '\\\\'; leading/trailing separators; absolute names into the "
         "sandbox) plus zip archives with hostile member names; sequences of 1-3 receive(cfg) calls with ONE Config object "
         "(refused->retry, success->other name, file->directory, failed->retry; per-receive answers; via the click entry point "
-        "or a plain args object) x every output option; thorough adds every name of <= 3 components; "
+        "or a plain args object) x every output option; the interactive receiver end to end through receive()/click Config/go(): "
+        "{answer y/Y/Enter/n} x {destination none/file/dir} x {-o unset/existing dir in 4 spellings/existing file/new} x {same-named "
+        "sub-directory, '..', '.', 'x/.', trailing slash, empty name}, the entry point's result awaited on a thread-free reactor "
+        "stand-in (sync / deferToThread / callFromThread / a later turn); thorough adds every name of <= 3 components; "
         "non-trivial = reaches a decision branch of _decide_destname/_extract_file; distinct = distinct canonical traces")
 
 SYS_TMP = tempfile.gettempdir()          # captured before any case redirects tempfile.tempdir
@@ -365,6 +383,43 @@ def multi_corpus():
     return out
 
 
+PROMPT_MEMBERS = [["inner.txt", 0o600], ["keep.txt", 0o600], ["extra.txt", 0o644], ["sub/x", 0o644], ["out_dir/inner.txt", 0o600],
+                  ["photos/inner.txt", 0o600]]
+
+
+def prompt_corpus():
+    """the interactive receiver (--accept-file OFF, the prompt really answered: y / Y / just Enter / n) x what is at the
+    destination when the offer arrives (nothing / a file / a directory) x the output option (unset, an existing directory in
+    four spellings, an existing file, a new name) x names that resolve, inside an existing -o directory, to a directory the
+    user already has: a same-named sub-directory, `..` (the working directory), `.` / `x/.` / a trailing slash / the empty
+    name (the -o directory itself).  Every case goes end to end through a real entry point — `cmd_receive.receive(cfg)`
+    with a plain args object or with the Config the click group builds, or `Receiver.go()` — with archives whose members
+    are named like what those directories already hold.  No random choice."""
+    out = []
+    legal = [("photos", p) for p in ("none", "file", "dir")] + [("sub/photos", p) for p in ("dir", "file")]
+    odd = [(n, "none") for n in ("photos/", "..", ".", "x/.", "x/..", "", "/", "photos/..")]
+    answers = itertools.cycle(["y", "", "Y", "y", "", "n"])
+    vias = itertools.cycle([("args", None), ("entry", "other"), ("go", None), ("args", None), ("entry", "same")])
+    for o in ["dir", "dir_slash", "dir_abs", "dir_up", "unset", "file", "new"]:
+        for nm, pre in legal + odd:
+            for md in ("file", "dir"):
+                for k in range(2):
+                    ans = next(answers)
+                    via, pwd = next(vias)
+                    if via == "go":
+                        c = dict(kind="go", level="go", mode=md, name=nm, output=o, accept=False, answer=ans, pre=pre, pretmp="none",
+                                 zipmode="zipfile/deflated", fault="none", fs="same")
+                        if md == "dir":
+                            c["members"] = [list(m) for m in PROMPT_MEMBERS]
+                    else:
+                        st = mstep(md, nm, answer=ans, pre=pre, members=[list(m) for m in PROMPT_MEMBERS] if md == "dir" else None)
+                        c = dict(kind="multi", via=via, output=o, accept=False, fs="same", steps=[st])
+                        if pwd:
+                            c["pwd"] = pwd
+                    out.append(c)
+    return out
+
+
 MULTI_NAMES = ["a", "b", "a", "notes.txt", "x/a", "../b", "a/", "..", "", ".", "sub/inner.txt", "out_dir", "out_new", "out_file",
                "keepdir", "keep.txt", "a.tmp", "{CWD}/keepdir/inner.txt", "{OUTER}/evil/x", "a b", "ä名", "File.TXT", "-x"]
 
@@ -436,6 +491,7 @@ def cases(rng, tier):
     out.extend(special_corpus(rng))
     out.extend(refusal_corpus(rng))
     out.extend(multi_corpus())
+    out.extend(prompt_corpus())
     # --- generated ----------------------------------------------------------------------------
     n = 1 if tier == "quick" else 25
     for _ in range(450 * n):
@@ -683,6 +739,246 @@ def build_zip(members):
     return buf.getvalue()
 
 
+# ---------------------------------------------------------------------------
+# the environment the code under test runs in, whatever its internal call structure: a reactor without threads, and a
+# user at the terminal.  The harness calls an entry point, then lets this reactor turn until whatever the entry point
+# returned (a value, a fired Deferred, a Deferred that needs further turns) has settled.
+
+class StepReactor(task.Clock):
+    """Deterministic, thread-free stand-in for the reactor.  Time is `task.Clock`'s.  Work handed to "a thread"
+    (`deferToThread`, `callInThread`, the thread pool) is queued and run — in this thread — at the next turn; what that
+    work hands back with `callFromThread` is queued FIFO and run by "the reactor thread" in the same turn, the result of
+    `deferToThread` behind it (as with the real pool).  As in the real reactor, an exception raised by a `callFromThread`
+    / `callInThread` call is only logged: it reaches no caller and no Deferred (kept in `dropped`)."""
+    running = True
+
+    def __init__(self):
+        super().__init__()
+        self.thread_jobs = []
+        self.from_thread = []
+        self.dropped = []
+        self.used = set()
+        self._pool = _StepPool(self)
+
+    # IReactorFromThreads
+    def callFromThread(self, f, *a, **kw):
+        self.used.add("callFromThread")
+        self.from_thread.append((f, a, kw))
+
+    # IReactorInThreads / IReactorThreads
+    def callInThread(self, f, *a, **kw):
+        self._pool.callInThread(f, *a, **kw)
+
+    def getThreadPool(self):
+        return self._pool
+
+    def suggestThreadPoolSize(self, size):
+        pass
+
+    # the bits of IReactorCore a command may touch
+    def callWhenRunning(self, f, *a, **kw):
+        self.from_thread.append((f, a, kw))
+
+    def addSystemEventTrigger(self, *a, **kw):
+        return object()
+
+    def removeSystemEventTrigger(self, trigger):
+        pass
+
+    def stop(self):
+        pass
+
+    def blockingCallFromThread(self, _reactor, f, *a, **kw):
+        """threads.blockingCallFromThread: the "thread" waits for the reactor to run f (and for its Deferred)"""
+        self.used.add("blockingCallFromThread")
+        out = []
+        defer.maybeDeferred(f, *a, **kw).addBoth(out.append)
+        self.pump(lambda: bool(out))
+        if not out:
+            raise RuntimeError("blockingCallFromThread: the call never finished")
+        if isinstance(out[0], Failure):
+            out[0].raiseException()
+        return out[0]
+
+    def turn(self):
+        """one turn of the loop; returns whether anything ran"""
+        ran = False
+        jobs, self.thread_jobs = self.thread_jobs, []
+        for on_result, f, a, kw in jobs:
+            ran = True
+            try:
+                ok, res = True, f(*a, **kw)
+            except Exception:
+                ok, res = False, Failure()
+            if on_result is not None:
+                on_result(ok, res)
+            elif not ok:
+                self.dropped.append(res.value)
+        calls, self.from_thread = self.from_thread, []
+        for f, a, kw in calls:
+            ran = True
+            try:
+                f(*a, **kw)
+            except Exception as e:          # the real reactor: log.err(), go on
+                self.dropped.append(e)
+        now = self.seconds()
+        if any(c.getTime() <= now for c in self.getDelayedCalls()):
+            self._advance(0)
+            ran = True
+        return ran
+
+    def _advance(self, amount):
+        """Clock.advance, but an exception raised by a timer is only logged, as in the real reactor (the timers behind it
+        stay queued for the next turn)"""
+        try:
+            self.advance(amount)
+        except Exception as e:
+            self.dropped.append(e)
+
+    def pump(self, done, turns=400):
+        """turn until `done()`; when nothing is runnable, let time pass up to the next timer.  False: it never settled."""
+        for _ in range(turns):
+            if done():
+                return True
+            if not self.turn():
+                pending = self.getDelayedCalls()
+                if not pending:
+                    return bool(done())
+                self._advance(max(0.0, min(c.getTime() for c in pending) - self.seconds()))
+        return bool(done())
+
+    @contextlib.contextmanager
+    def installed(self):
+        """code that reaches for the global reactor (`from twisted.internet import reactor`, `deferToThread`) instead of the
+        one it was given gets this one's threads / timers too.  Nothing of the global reactor is started or left changed."""
+        from twisted.internet import reactor as global_reactor
+        from twisted.internet import threads
+        with contextlib.ExitStack() as st:
+            for nm in ("callFromThread", "callInThread", "getThreadPool", "suggestThreadPoolSize", "callLater", "seconds",
+                       "callWhenRunning"):
+                st.enter_context(mock.patch.object(global_reactor, nm, getattr(self, nm), create=True))
+            st.enter_context(mock.patch.object(threads, "blockingCallFromThread", self.blockingCallFromThread))
+            if hasattr(cmd_receive, "blockingCallFromThread"):
+                st.enter_context(mock.patch.object(cmd_receive, "blockingCallFromThread", self.blockingCallFromThread))
+            yield self
+
+    def settle(self, x, what="the call"):
+        """whatever the code under test returned — a plain value or a Deferred — as a value (or the exception, raised)"""
+        if not isinstance(x, defer.Deferred):
+            return x
+        out = []
+        x.addBoth(out.append)
+        if not self.pump(lambda: bool(out)):
+            raise RuntimeError(f"{what} did not finish (its Deferred never fired, nothing left to run)")
+        if isinstance(out[0], Failure):
+            out[0].raiseException()
+        return out[0]
+
+    def call(self, f, *a, **kw):
+        """call into the code under test and wait for whatever it returns"""
+        return self.settle(defer.maybeDeferred(f, *a, **kw), getattr(f, "__name__", "the call"))
+
+    def tags(self):
+        return ["reactor:" + u for u in sorted(self.used)] + \
+               ["reactor:dropped-exception:" + canon_exc(e) for e in self.dropped[:1]]
+
+
+class _StepPool:
+    """twisted.python.threadpool.ThreadPool as far as deferToThread & co. use it"""
+
+    def __init__(self, reactor):
+        self._reactor = reactor
+
+    def callInThread(self, f, *a, **kw):
+        self.callInThreadWithCallback(None, f, *a, **kw)
+
+    def callInThreadWithCallback(self, on_result, f, *a, **kw):
+        self._reactor.used.add("thread")
+        self._reactor.thread_jobs.append((on_result, f, a, kw))
+
+    def start(self):
+        pass
+
+    def stop(self):
+        pass
+
+    def adjustPoolsize(self, *a, **kw):
+        pass
+
+
+class Prompt:
+    """the user at the terminal: every line the code under test reads — `input()` from whichever module or thread,
+    `sys.stdin.readline()` — is answered with the case's answer"""
+    encoding = "utf-8"
+    errors = "strict"
+    closed = False
+
+    def __init__(self, answer):
+        self.answer = answer
+        self.asked = 0
+
+    def __call__(self, prompt=""):           # input(prompt)
+        self.asked += 1
+        return self.answer
+
+    def readline(self, *a):                  # sys.stdin
+        self.asked += 1
+        return self.answer + "\n"
+
+    def read(self, *a):
+        return self.readline()
+
+    def __iter__(self):
+        return self
+
+    def __next__(self):
+        return self.readline()
+
+    def isatty(self):
+        return True
+
+    def readable(self):
+        return True
+
+    def fileno(self):
+        raise io.UnsupportedOperation("fileno")
+
+    def flush(self):
+        pass
+
+    @contextlib.contextmanager
+    def installed(self):
+        with mock.patch.object(cmd_receive, "input", self, create=True), mock.patch.object(builtins, "input", self), \
+                mock.patch.object(sys, "stdin", self):
+            yield self
+
+    def tags(self, before, announced, outcome):
+        """which cell of {answer} x {what was at the destination when the receive started} this run was"""
+        if not self.asked:
+            return []
+        a = self.answer
+        yes = a.lower().startswith("y") or len(a) == 0
+        was = (before.get(announced) or ("-",))[0] if announced is not None else "?"
+        return ["prompt:asked", f"prompt:{'enter' if a == '' else ('yes' if yes else 'no')}:dest-{was}:{outcome}"]
+
+
+def permission_sent(w):
+    """did the receiver tell the sender to go ahead? (observed on the wire, whatever the helper is called)"""
+    return any(isinstance(m, dict) and isinstance(m.get("answer"), dict) and m["answer"].get("file_ack") == "ok" for m in w.sent)
+
+
+def hooked_send_permission(record):
+    """context: `Receiver._send_permission` (if the class still has one) also appends to `record`"""
+    real = getattr(cmd_receive.Receiver, "_send_permission", None)
+    if real is None:
+        return contextlib.nullcontext()
+
+    def send_permission(self, w_):
+        record.append(True)
+        return real(self, w_)
+    return mock.patch.object(cmd_receive.Receiver, "_send_permission", send_permission)
+
+
 class Spy:
     """records zipfile.ZipFile.extract / os.chmod as called by the code under test (the originals run)"""
 
@@ -787,10 +1083,21 @@ def oracle(before, after, cwd, out_abs, out_was_dir, out_set, name, announced, s
     if dest is not None and before.get(dest + ".tmp", ("",))[0] == "l":
         staged_through = resolve(dest + ".tmp")
     dangling_dest = dest is not None and not overwrite_ok and before.get(dest, ("",))[0] == "l" and resolve(dest) not in before
+    # the destination is a directory the user already has (directly, or through a symbolic link): the only thing the
+    # receiver may do with the offer is refuse it — whatever the configuration, whatever the user answers at the prompt
+    # (`never_removes_dir`; Lean: receive_never_onto_existing_directory, existing_directory_destination_fails_untouched)
+    dest_was_dir = dest is not None and before.get(resolve(dest), ("",))[0] == "d"
 
     for p in sorted(set(before) | set(after)):
         b, a = before.get(p), after.get(p)
         if b == a:
+            continue
+        if dest_was_dir and ((b is None and (p == dest + ".tmp" or below(p, dest))) or (b is not None and p == dest + ".tmp")):
+            what = "created" if b is None else ("removed" if a is None else f"changed {b} -> {a}")
+            viol.append(("existing-directory-destination-not-refused",
+                         f"{p!r} {what}: the destination {dest!r} of offer {name!r} is a directory the user already had, the offer "
+                         f"had to be refused (and touch nothing); instead the transfer went ahead "
+                         f"({'the offer was accepted' if succeeded else 'and failed only later'})"))
             continue
         if staged_through is not None and p == staged_through:
             what = "created" if b is None else ("removed" if a is None else f"changed {b} -> {a}")
@@ -962,15 +1269,36 @@ def place_pre(case, sb, name, out_set, out_abs, out_was_dir):
     return would_be, placeable
 
 
+RECV_HELPERS = {"decide": ["_decide_destname"], "file": ["_handle_file", "_write_file"],
+                "dir": ["_handle_directory", "_write_directory", "_extract_file"]}
+
+
+class HelperShape(BaseException):
+    """a private helper of Receiver is gone, or no longer hands back what the step-by-step world reads from it
+    (not an Exception: the code that plays the caller of the real code — `except Exception` — must not take it for an outcome)"""
+
+
 def run_recv(case):
-    sb = Sandbox(cross=case.get("fs") == "cross")
-    try:
-        with sb.spooling():
-            r = _run_recv(case, sb)
-        r.tags.append("fs:" + ("cross" if sb.cross else "same") + (":emulated" if sb.cross and not sb.real_cross else ""))
-        return r
-    finally:
-        sb.cleanup()
+    """the step-by-step world (`_decide_destname` / `_handle_*` / `_write_*`, each waited for whatever it returns).  When the
+    Receiver no longer has these helpers in a shape this world can read, the same offer goes through the real entry point
+    instead (`Receiver.go()`), so that the oracle judges the implementation whatever its internal call structure is."""
+    need = RECV_HELPERS["decide" if case["level"] == "decide" else case["mode"]]
+    via_entry = [h for h in need if not callable(getattr(cmd_receive.Receiver, h, None))]
+    if not via_entry:
+        sb = Sandbox(cross=case.get("fs") == "cross")
+        try:
+            with sb.spooling():
+                r = _run_recv(case, sb)
+            r.tags.append("fs:" + ("cross" if sb.cross else "same") + (":emulated" if sb.cross and not sb.real_cross else ""))
+            return r
+        except HelperShape as e:
+            via_entry = [str(e)]
+        finally:
+            sb.cleanup()
+    c = dict(case, kind="go", level="go", fault="none")
+    r = run_go(c)
+    r.tags.append("recv:through-entry-point")
+    return r
 
 
 def _run_recv(case, sb):
@@ -991,8 +1319,9 @@ def _run_recv(case, sb):
 
     before = sb.snapshot()
     args = make_args(sb, out_file, case["accept"])
-    r = cmd_receive.Receiver(args)
-    fake_input = mock.Mock(side_effect=lambda prompt="": case["answer"])
+    rx = StepReactor()
+    r = cmd_receive.Receiver(args, rx)
+    prompt = Prompt(case["answer"])
     announced = None
     succeeded = False
     rejected = False
@@ -1000,12 +1329,14 @@ def _run_recv(case, sb):
     clean = os_clean(name) and (out_file is None or os_clean(out_file))
     f = None
     members = [[sb.subst(m[0], would_be if placeable else sb.cwd + "/nodest")] + list(m[1:]) for m in case.get("members", [])]
-    with mock.patch.object(cmd_receive, "input", fake_input, create=True), \
+    with prompt.installed(), rx.installed(), \
             contextlib.redirect_stderr(io.StringIO()), spy.installed():
         try:
             if case["level"] == "decide":
                 try:
-                    d = r._decide_destname(case["mode"], name)
+                    d = rx.call(r._decide_destname, case["mode"], name)
+                    if not isinstance(d, str):
+                        raise HelperShape("_decide_destname")
                     announced, succeeded = d, True
                     tags.append("decide:ok")
                     lines.append(f"decide {hx(name)}")
@@ -1017,7 +1348,9 @@ def _run_recv(case, sb):
                     exp.append(f"{canon_exc(e)} | {kinds(reg)}")
             elif case["mode"] == "file":
                 try:
-                    f = r._handle_file({"file": {"filename": name, "filesize": 9}})
+                    f = rx.call(r._handle_file, {"file": {"filename": name, "filesize": 9}})
+                    if not (hasattr(f, "write") and hasattr(f, "name") and hasattr(r, "abs_destname")):
+                        raise HelperShape("_handle_file")
                     announced, succeeded = r.abs_destname, True
                     tags.append("handle_file:ok")
                     if clean:
@@ -1037,7 +1370,7 @@ def _run_recv(case, sb):
                 if f is not None:
                     f.write(b"new data!")
                     try:
-                        r._write_file(f)
+                        rx.call(r._write_file, f)
                         res = "ok"
                     except Exception as e:
                         res = canon_exc(e)
@@ -1050,7 +1383,9 @@ def _run_recv(case, sb):
                 offer = {"directory": {"mode": case["zipmode"], "dirname": name, "zipsize": len(zbytes),
                                        "numbytes": 9 * len(members), "numfiles": len(members)}}
                 try:
-                    f = r._handle_directory(offer)
+                    f = rx.call(r._handle_directory, offer)
+                    if not (hasattr(f, "write") and hasattr(r, "abs_destname")):
+                        raise HelperShape("_handle_directory")
                     announced, succeeded = r.abs_destname, True
                     tags.append("handle_dir:ok")
                     if clean:
@@ -1067,7 +1402,7 @@ def _run_recv(case, sb):
                     f.write(zbytes)
                     final = None
                     try:
-                        r._write_directory(f)
+                        rx.call(r._write_directory, f)
                     except Exception as e:
                         final = e
                     tags.append("write_directory:" + (canon_exc(final) if final else "ok"))
@@ -1084,6 +1419,8 @@ def _run_recv(case, sb):
     viol = oracle(before, after, sb.cwd, out_abs, out_was_dir, out_set, name, announced, succeeded, rejected,
                   check_announced=(case['level'] != 'decide' or case['accept']),
                   trace=spy.mutations)
+    tags.extend(rx.tags())
+    tags.extend(prompt.tags(before, announced, "ok" if succeeded else ("refused" if rejected else "failed")))
     if viol:
         tags.append("oracle:" + viol[0][0])
     return Result(lines, exp, viol, tags, nontrivial=True)
@@ -1114,6 +1451,13 @@ def member_lines(dest, zbytes, spy, final, lines, exp, tags):
 def run_zip(case):
     """`_extract_file` on every member of a hostile archive (continuing after rejections), into an existing
     destination next to look-alike siblings"""
+    if not callable(getattr(cmd_receive.Receiver, "_extract_file", None)):
+        # no per-member helper any more: the same archive as a directory offer through the real entry point
+        r = run_go(dict(kind="go", level="go", mode="dir", name="dest", output="unset", accept=True, answer="y", pre="none",
+                        pretmp="none", zipmode="zipfile/deflated", fault="none", fs="same",
+                        members=[m for m in case["members"] if os_clean(m[0].replace("{DEST}", "").replace("{DESTBASE}", ""))]))
+        r.tags.append("zip:through-entry-point")
+        return r
     sb = Sandbox()
     try:
         dest = os.path.join(sb.cwd, "dest")
@@ -1125,16 +1469,17 @@ def run_zip(case):
         zbytes = build_zip(members)
         before = sb.snapshot()
         args = make_args(sb, None, True)
-        r = cmd_receive.Receiver(args)
+        rx = StepReactor()
+        r = cmd_receive.Receiver(args, rx)
         lines, exp, tags = [f"args {hx(sb.cwd)} - 1 - {hx(os.getcwd())}"], ["ok"], ["zip"]
         outer_spy = Spy()
-        with zipfile.ZipFile(io.BytesIO(zbytes)) as zf, outer_spy.installed():
+        with zipfile.ZipFile(io.BytesIO(zbytes)) as zf, rx.installed(), outer_spy.installed():
             for info in zf.infolist():
                 spy = outer_spy
                 del spy.extracts[:], spy.chmods[:]
                 final = None
                 try:
-                    r._extract_file(zf, info, dest)
+                    rx.call(r._extract_file, zf, info, dest)
                 except Exception as e:
                     final = e
                 if spy.extracts and spy.extracts[0][2] is None and spy.chmods:
@@ -1374,14 +1719,10 @@ def _run_go(case, sb, entry=None):
     if entry is not None:
         args = cfg
     w = FakeWormhole([{"transit": {"abilities-v1": [{"type": "direct-tcp-v1"}], "hints-v1": []}}, {"offer": offer}])
-    r = cmd_receive.Receiver(args, task.Clock())
-    fake_input = mock.Mock(side_effect=lambda prompt="": case["answer"])
+    rx = StepReactor()
+    r = cmd_receive.Receiver(args, rx)
+    prompt = Prompt(case["answer"])
     permission = []
-    real_send_permission = cmd_receive.Receiver._send_permission
-
-    def send_permission(self, w_):
-        permission.append(True)
-        return real_send_permission(self, w_)
 
     spy = Spy()
     result = []
@@ -1389,13 +1730,17 @@ def _run_go(case, sb, entry=None):
         warnings.simplefilter("ignore")
         with mock.patch.object(cmd_receive, "create", return_value=w), \
                 mock.patch.object(cmd_receive, "TransitReceiver", fake_transit_receiver(payload)), \
-                mock.patch.object(cmd_receive, "input", fake_input, create=True), \
-                mock.patch.object(cmd_receive.Receiver, "_send_permission", send_permission), \
+                prompt.installed(), rx.installed(), hooked_send_permission(permission), \
                 contextlib.redirect_stderr(io.StringIO()), spy.installed():
-            d = r.go()
+            # the entry point, and then as many turns of the reactor as whatever it returned needs (the prompt may be asked
+            # from a thread, the answer may come back with callFromThread, a step may be put off to a later turn)
+            d = defer.maybeDeferred(r.go)
             d.addCallbacks(lambda _: result.append(None), lambda f: result.append(f.value))
+            rx.pump(lambda: bool(result))
     if not result:
-        raise RuntimeError("Receiver.go() did not finish synchronously")
+        raise RuntimeError("Receiver.go() did not finish (its Deferred never fired and the reactor has nothing left to run)")
+    if permission_sent(w) and not permission:
+        permission.append(True)
     final = result[0]
     outcome = "ok" if final is None else canon_exc(final)
     tags.append("go:" + outcome + (":after-permission" if permission and final is not None else ""))
@@ -1428,6 +1773,8 @@ def _run_go(case, sb, entry=None):
     refused = final is not None and not permission and isinstance(final, TransferError)
     viol = oracle(before, after, sb.cwd, out_abs, out_was_dir, out_set, name, announced, succeeded, refused,
                   trace=spy.mutations)
+    tags.extend(rx.tags())
+    tags.extend(prompt.tags(before, announced, "ok" if succeeded else ("refused" if refused else "failed")))
     if viol:
         tags.append("oracle:" + viol[0][0])
     return Result(lines, exp, viol, tags, nontrivial=True)
@@ -1536,16 +1883,11 @@ def _run_multi(case, sb, entry):
     made = []
     base = cmd_receive.Receiver
     real_init = base.__init__
-    real_send_permission = base._send_permission
     permission = []
 
     def init(self, *a, **kw):
         made.append(self)
         return real_init(self, *a, **kw)
-
-    def send_permission(self, w_):
-        permission.append(True)
-        return real_send_permission(self, w_)
 
     viol, late, seq = [], [], []
     for i, st in enumerate(steps):
@@ -1569,7 +1911,8 @@ def _run_multi(case, sb, entry):
         opts_before = user_options(args)
         args.stdout, args.stderr = io.StringIO(), io.StringIO()
         w = FakeWormhole([{"transit": {"abilities-v1": [{"type": "direct-tcp-v1"}], "hints-v1": []}}, {"offer": offer}])
-        fake_input = mock.Mock(side_effect=lambda prompt="", _a=st.get("answer", "y"): _a)
+        prompt = Prompt(st.get("answer", "y"))
+        rx = StepReactor()
         spy = Spy()
         result = []
         del made[:], permission[:]
@@ -1577,15 +1920,19 @@ def _run_multi(case, sb, entry):
             warnings.simplefilter("ignore")
             with mock.patch.object(cmd_receive, "create", return_value=w), \
                     mock.patch.object(cmd_receive, "TransitReceiver", fake_transit_receiver(payload)), \
-                    mock.patch.object(cmd_receive, "input", fake_input, create=True), \
+                    prompt.installed(), rx.installed(), \
                     mock.patch.object(base, "__init__", init), \
-                    mock.patch.object(base, "_send_permission", send_permission), \
+                    hooked_send_permission(permission), \
                     contextlib.redirect_stderr(io.StringIO()), spy.installed():
-                # the real entry point of the command: receive(args) -> Receiver(args).go()
-                d = cmd_receive.receive(args, reactor=task.Clock())
+                # the real entry point of the command: receive(args) -> Receiver(args).go(); then as many turns of the
+                # reactor as whatever it returned needs
+                d = defer.maybeDeferred(cmd_receive.receive, args, reactor=rx)
                 d.addCallbacks(lambda _: result.append(None), lambda f: result.append(f.value))
+                rx.pump(lambda: bool(result))
         if not result:
-            raise RuntimeError("cmd_receive.receive() did not finish synchronously")
+            raise RuntimeError("cmd_receive.receive() did not finish (its Deferred never fired and the reactor has nothing left to run)")
+        if permission_sent(w) and not permission:
+            permission.append(True)
         final = result[0]
         outcome = "ok" if final is None else canon_exc(final)
         announced = getattr(made[-1], "abs_destname", None) if made else None
@@ -1593,6 +1940,8 @@ def _run_multi(case, sb, entry):
         refused = final is not None and not permission and isinstance(final, TransferError)
         seq.append("ok" if succeeded else ("refused" if refused else "failed"))
         tags.append(f"multi:step{i + 1}:{st['mode']}:{seq[-1]}")
+        tags.extend(rx.tags())
+        tags.extend(prompt.tags(before, announced, seq[-1]))
         after = sb.snapshot()
         opts_after = user_options(args)
 
